@@ -76,5 +76,5 @@ AcceptsFrom(P, root, c0, fl, i, strict) ==
 AcceptsMaximal(P, root, fl) == AcceptsFrom(P, root, InitCfg(P, root), fl, 1, FALSE)
 \* C05: ... and the flushed kind is one of greatest priority
 Accepts(P, root, fl) == AcceptsFrom(P, root, InitCfg(P, root), fl, 1, TRUE)
-RoundsDomain(P) == YieldOnly(P) /\ SeqDomain(P) /\ Len(P.calls) = 1
+RoundsDomain(P) == YieldOnly(P) /\ SeqDomain(P) /\ Len(P.calls) = 1 /\ NoBaseRaise(P)
 =============================================================================
